@@ -59,6 +59,8 @@ def enumerate_faults(d):
                 out.append({"kind": "sensor_uses_control", "at": [key, r], "with": u})
             out.append({"kind": "snoise_reading_missing", "at": [key, r]})
             out.append({"kind": "snoise_reading_renamed", "at": [key, r]})
+            if len(r) > 2:
+                out.append({"kind": "snoise_reading_truncated", "at": [key, r]})  # a key that is a proper prefix of the reading's name
     out.append({"kind": "snoise_sensor_extra", "at": "extra9"})
     return out
 
@@ -133,6 +135,10 @@ def apply_fault(d, f):
     elif k == "snoise_reading_extra":
         if at in d["sensors"] and d["sensors"][at]["noise"] is not None:
             d["sensors"][at]["noise"][NEW + "_r"] = fx(1.0)
+    elif k == "snoise_reading_truncated":
+        key, r = at
+        if key in d["sensors"] and d["sensors"][key]["noise"] is not None and r in d["sensors"][key]["noise"] and r[:-1] not in d["sensors"][key]["noise"]:
+            d["sensors"][key]["noise"] = {(r[:-1] if q == r else q): v for q, v in d["sensors"][key]["noise"].items()}
     elif k == "snoise_reading_renamed":
         key, r = at
         if key in d["sensors"] and d["sensors"][key]["noise"] is not None and r in d["sensors"][key]["noise"]:
@@ -220,7 +226,7 @@ class FakeFS:
 # --------------------------------------------------------------------------- generation
 def generate(rng, prop, tier):
     if rng.random() < 0.15:
-        d = models.curated(rng.choice(["cv", "rect", "mass_zva", "managed"]))
+        d = models.curated(rng.choice(["cv", "rect", "mass_zva", "managed", "landmark", "landmark"]))
         d["containers"] = {k: rng.choice(["set", "list", "tuple", "frozenset"]) for k in d["containers"]}
     else:
         d = models.draw(rng, symbol_keys=False)
@@ -234,7 +240,7 @@ def generate(rng, prop, tier):
     if d["control"]:
         u = d["control"][0]
         ops.append({"op": "case", "faults": [{"kind": "pnoise_missing", "at": u}, {"kind": "pnoise_foreign_add", "at": u}]})
-    cfg = {"cse": rng.random() < 0.3, "python_config_as_dict": rng.random() < 0.3}
+    cfg = {"cse": rng.random() < 0.5, "python_config_as_dict": rng.random() < 0.3}
     return {"config": cfg, "model": d, "ops": ops, "faults": []}
 
 
